@@ -14,6 +14,7 @@ from props import c05 as S
 from props.c03 import isometry_defects, shapes_by_neighbour
 
 TOL = 1e-8
+KNOWN_REVERSAL = "C06-reversal-rank-deficient"
 
 
 def negated(ham):
@@ -91,6 +92,30 @@ def conservation_oracle(kind, ob, hscale):
     return None
 
 
+def deficient_bonds(par, dims_list, psi0, bond_dims):
+    """edges (child index) whose bond dimension exceeds the Schmidt rank of the initial state across that edge
+    (sites in identifier order n0, n1, ...; bond_dims[i-1] is the dimension of the bond above node i)"""
+    n = len(par)
+    ch = util.children_of(par)
+
+    def sub(i):
+        out = [i]
+        for c in ch[i]:
+            out += sub(c)
+        return out
+    t = psi0.reshape(dims_list)
+    bad = []
+    for i in range(1, n):
+        inside = sorted(sub(i))
+        outside = [k for k in range(n) if k not in inside]
+        m = np.transpose(t, inside + outside).reshape(int(np.prod([dims_list[k] for k in inside])), -1)
+        sv = np.linalg.svd(m, compute_uv=False)
+        rank = int(np.sum(sv > 1e-10 * sv[0])) if sv.size and sv[0] > 0 else 0
+        if bond_dims[i - 1] > rank:
+            bad.append([i, int(bond_dims[i - 1]), rank])
+    return bad
+
+
 def _run_case(case):
     try:
         sysd = S.build_system(case)
@@ -105,6 +130,11 @@ def _run_case(case):
         ob["initial_shapes"] = init_shapes
         ob["hscale"] = float(np.max(np.abs(sysd["H"])))
         ob["psi0_dev"] = float(np.max(np.abs(ob["measure"][0]["vec"] - psi0))) if ob["measure"] else None
+        if sub == "reverse":
+            ids = sysd["ids"]
+            bd = {S.nid(i): sysd["ttns"].nodes[i].shape[sysd["ttns"].nodes[i].neighbour_index(sysd["ttns"].nodes[i].parent)]
+                  for i in ids if not sysd["ttns"].nodes[i].is_root()}
+            ob["deficient"] = deficient_bonds(case["par"], [sysd["dims"][i] for i in ids], psi0, [bd[k] for k in range(1, len(ids))])
         if "exception" not in ob:
             if sub == "saturated":
                 devs = []
@@ -143,7 +173,7 @@ class C06(Prop):
     id = "C06"
     title = "one-site TDVP: runs everywhere, conserves, reversible"
     design_ref = "DESIGN.md section 5 / C06"
-    rule = ("every rooted ordered tree with 2..4 (thorough: 2..5) nodes plus the fixed list (single-child roots, stars, chains, depth ties) and random "
+    rule = ("every rooted ordered tree with 2..4 (thorough: 2..6) nodes plus the fixed list (single-child roots, stars, chains, depth ties) and random "
             "trees up to 7 nodes, both one-site classes, Hermitian random Hamiltonians, unnormalised random states with shuffled legs and "
             "bond dimensions 1..3 (zero-padded bonds included), modes EXPM and the default, 1..3 steps; sub-kinds: run (structure, canonical "
             "form, conservation), reverse (second order: step(H) then step(-H)), saturated (two nodes, bond = both physical dimensions, "
@@ -154,7 +184,8 @@ class C06(Prop):
               "<= 1 neighbour, incl. single-child roots) hold on every tree (C06_trace_no_failing_assert); every node is updated for exactly one step"),
         ("F", "bounded, all trees <= 9 nodes: all orthogonality-centre assertions hold, every split/link is on an edge, every block read is fresh, and "
               "each of two consecutive steps ends with the centre on update_path[0] (C06_schedule_ok_bounded_9)"),
-        ("F", "bounded, all trees <= 10 nodes: the second-order (object, factor) sequence is a palindrome (C06_second_order_palindrome_bounded_10)"),
+        ("F", "on every tree the second-order (object, signed factor) sequence is a palindrome (C06_second_order_palindrome: path symmetry, "
+              "the last two nodes of the update path are adjacent — C06_turning_point_on_edge), hence the step with -H runs the inverse updates in reverse order"),
         ("O", "Layer A (abstract matrix algebra): E^+E = 1, H = H^+ => K = E^+HE Hermitian; a unitary commuting with K preserves <psi|psi> and "
               "<psi|H|psi> of psi = E A (C06_projected_hamiltonian_hermitian, C06_local_update_conserves); contracts: exp(-+iKt) unitary and commuting "
               "with K (expm kernel), E isometry (C03 / LAPACK QR)"),
@@ -164,14 +195,17 @@ class C06(Prop):
     ]
     trusted_base = ["np.linalg.eigh for the reference propagator; einsum for dense states; kron for the dense Hamiltonian",
                     "expm / Chebyshev kernels of the library are exercised, not modelled (C20)"]
-    assumptions = ["Hermitian Hamiltonian for the conservation/reversibility clauses; exponential-based modes (EXPM, default = Chebyshev)"]
+    assumptions = ["Hermitian Hamiltonian for the conservation/reversibility clauses; exponential-based modes (EXPM, default = Chebyshev)",
+                   "time step chosen per case as a power of two with ||H|| dt in (1/2, 1] (times dtscale) so that the expm kernels work at nominal accuracy",
+                   "reversibility of states is exact (1e-15 observed) when every bond is at its full Schmidt rank; on zero-padded / rank-deficient bonds the "
+                   "sweep is reversible only up to O(dt^3) (known finding C06-reversal-rank-deficient)"]
 
     def generate(self, ctx, stream, budget_scale=1):
         rng = ctx.rng(stream)
         cases = []
-        small = [p for n in range(2, (6 if ctx.thorough() else 5)) for p in util.all_parents(n)]
-        trees = small + [p for p in S.SPECIAL_TREES if len(p) > (5 if ctx.thorough() else 4)]
-        nrand = ctx.scale(40, 400) * budget_scale
+        small = [p for n in range(2, (7 if ctx.thorough() else 5)) for p in util.all_parents(n)]
+        trees = small + [p for p in S.SPECIAL_TREES if len(p) > (6 if ctx.thorough() else 4)]
+        nrand = ctx.scale(40, 1200) * budget_scale
         for _ in range(nrand):
             trees.append(S.random_tree(rng, rng.choice([3, 4, 5, 6, 7])))
         if stream != "main":
@@ -245,15 +279,17 @@ class C06(Prop):
                 if dev > TOL:
                     return f"{kind} saturated two-node: state after {k} steps differs from exp(-iH k dt) psi by {dev:.2e}"
         if case["sub"] == "reverse":
-            if ob["reverse_dev"] > TOL:
-                return f"{kind}: step(H) then step(-H) misses the initial state by {ob['reverse_dev']:.2e}"
-            if ob.get("reverse_dev_fresh", 0.0) > TOL:
-                return f"{kind}: step(H) then a fresh object's step(-H) misses the initial state by {ob['reverse_dev_fresh']:.2e}"
+            dev = max(ob["reverse_dev"], ob.get("reverse_dev_fresh", 0.0))
+            if dev > TOL:
+                if ob.get("deficient") and dev < 1e-2:
+                    return (f"{kind}: step(H) then step(-H) misses the initial state by {dev:.2e} on a state with rank-deficient bonds "
+                            f"[node, bond dimension, Schmidt rank] = {ob['deficient']} (tree {case['par']}, dt = {ob['dt']})")
+                return f"{kind}: step(H) then step(-H) misses the initial state by {dev:.2e} (every bond at its full Schmidt rank: {not ob.get('deficient')})"
         return None
 
     def classify(self, case, what, known):
-        for kid, k in known.items():
-            m = k.get("match")
-            if m and m in what:
-                return kid
+        # the one recorded class: O(dt^3) irreversibility of the second-order sweep on states whose bond dimension exceeds
+        # the Schmidt rank (zero-padded / rank-deficient bonds); every other violation stays a violation
+        if "misses the initial state" in what and "rank-deficient bonds" in what and KNOWN_REVERSAL in known:
+            return KNOWN_REVERSAL
         return None
